@@ -38,7 +38,8 @@ CONSTANTS
                \* "routes": every route shape of the rich pool inside one plain service, the rest tiny
   Ordered,     \* BOOLEAN: kitchen-sink documents (see the pools section)
   MaxSteps,    \* builder steps per document
-  Modes,       \* subset of {"default","single","uniform","random","mutate","area","areapair"}
+  Modes,       \* subset of {"default","single","uniform","random","mutate","area","areapair"} and of the
+               \* character-level mutations {"trunc","tail","delch","dupch"} with their switches "charlay", "eol"
   Kinds,       \* layout kinds used by the modes single / uniform / random
   Salts,       \* salts of the pseudo-random layouts (mode "random")
   Density,     \* mode "random": a boundary is perturbed with probability 1/Density
@@ -56,7 +57,8 @@ VARIABLES
   phase,   \* "build" -> "lay" -> "ready"
   toks,    \* Tokens(doc) once the document is complete (<<>> while building)
   lay,     \* layout: kind of every token boundary 1..n+1 (0 = the canonical separator)
-  mut      \* mutation applied to the token sequence ([kind |-> "none"] for valid cases)
+  mut      \* mutation applied to the token sequence, or to the rendered text (CharMuts)
+           \* ([kind |-> "none"] for valid cases)
 
 vars == <<doc, lvl, var, steps, phase, toks, lay, mut>>
 
@@ -581,7 +583,30 @@ LayAreaPair ==
        /\ b1 < b2 /\ AreaAt(toks, b1, k1) /\ AreaAt(toks, b2, k2)
        /\ Ready([DefaultLay(toks) EXCEPT ![b1] = k1, ![b2] = k2], NoMut)
 
-Lay == phase = "lay" /\ (LayDefault \/ LaySingle \/ LayUniform \/ LayRandom \/ LayMutate \/ LayArea \/ LayAreaPair)
+\* Invalid variants below the token level: the *text* of a rendered document (canonical layout,
+\* and with mode "charlay" every uniform layout of Kinds as well, i.e. with comments of every
+\* shape) damaged at a character position.  This is where the scanner's look-aheads live
+\* ('.', '..', '...'; '/', '//', '/*' ... '*/'; quoted and raw strings; '@' words; numbers with
+\* a unit; `interface{}`): a token-level mutation always hands the scanner whole tokens
+\* followed by a line break, whereas a file that was cut off / hand-edited ends or continues in
+\* the middle of one.
+\*   "trunc"  the first `at` characters only (1 <= at < length): end of input at every offset,
+\*   "tail"   the text without its first `at` characters: input starting at every offset,
+\*   "delch"  character `at` deleted, "dupch": written twice,
+\* each without anything appended (n = 0: the damaged text is the input; all but "trunc" still end
+\* with the line break that ends every rendered text) and, with mode "eol", the cut-off text
+\* followed by a line break too (n = 1).  Such a text is not known to be valid (a cut
+\* behind a complete statement is): nothing but "no crash" is demanded from it.
+CharMuts == {"trunc", "tail", "delch", "dupch"}
+UniformLay(ts, k) == [b \in 1..(Len(ts) + 1) |-> IF Allowed(ts, b, k) THEN k ELSE 0]
+CharLays(ts) == {DefaultLay(ts)} \cup (IF "charlay" \in Modes THEN {UniformLay(ts, k) : k \in Kinds} ELSE {})
+LayChar ==
+  \E kd \in CharMuts \cap Modes, l \in CharLays(toks) :
+    \E i \in 1..Len(Render(toks, l)), e \in (IF "eol" \in Modes /\ kd = "trunc" THEN {0, 1} ELSE {0}) :
+      /\ kd \in {"trunc", "tail"} => i < Len(Render(toks, l))
+      /\ Ready(l, [kind |-> kd, at |-> i, n |-> e])
+
+Lay == phase = "lay" /\ (LayDefault \/ LaySingle \/ LayUniform \/ LayRandom \/ LayMutate \/ LayArea \/ LayAreaPair \/ LayChar)
 
 \* the token texts and canonical separators after a mutation
 Pairs(ts) == [i \in 1..Len(ts) |-> <<ts[i].d, ts[i].t>>]
@@ -595,8 +620,18 @@ Mutated(ts, m) ==
 RECURSIVE CatPairs(_)
 CatPairs(ps) == IF ps = <<>> THEN "" ELSE ps[1][1] \o ps[1][2] \o CatPairs(Tail(ps))
 
+\* the text after a character-level mutation
+CharMutated(s, m) ==
+  LET i == m.at  n == Len(s) IN
+  CASE m.kind = "trunc" -> SubSeq(s, 1, i)
+    [] m.kind = "tail"  -> SubSeq(s, i + 1, n)
+    [] m.kind = "delch" -> SubSeq(s, 1, i - 1) \o SubSeq(s, i + 1, n)
+    [] m.kind = "dupch" -> SubSeq(s, 1, i) \o SubSeq(s, i, n)
+
 \* the source text of a ready case
-Source == IF mut.kind = "none" THEN Render(toks, lay) ELSE CatPairs(Mutated(toks, mut)) \o "\n"
+Source == CASE mut.kind = "none" -> Render(toks, lay)
+            [] mut.kind \in CharMuts -> CharMutated(Render(toks, lay), mut) \o (IF mut.n = 1 THEN "\n" ELSE "")
+            [] OTHER -> CatPairs(Mutated(toks, mut)) \o "\n"
 Valid == mut.kind = "none"
 
 Init == doc = <<>> /\ lvl = -1 /\ var = 0 /\ steps = 0 /\ phase = "build" /\ toks = <<>> /\ lay = <<>> /\ mut = NoMut
@@ -626,6 +661,18 @@ AreaSane ==
   (phase = "ready" /\ Valid /\ Avoid /\ InArea(toks, lay)) =>
      /\ Cardinality(Perturbed(lay)) \in {1, 2}
      /\ \A b \in Perturbed(lay) : KnownArea(toks, b, lay[b])
+\* a character-level mutation damages a legally laid-out text at a position inside it; what is left
+\* is not empty, has the length the mutation says and agrees with the text outside the damage
+CharSane ==
+  (phase = "ready" /\ mut.kind \in CharMuts) =>
+    LET s == Render(toks, lay)  n == Len(s)  i == mut.at  r == CharMutated(s, mut) IN
+    /\ LegalLayout(toks, lay) /\ i \in 1..n /\ mut.n \in {0, 1} /\ r # "" /\ ~Valid
+    /\ Len(Source) = Len(r) + mut.n
+    /\ CASE mut.kind = "trunc" -> Len(r) = i /\ i < n /\ r \o SubSeq(s, i + 1, n) = s
+         [] mut.kind = "tail"  -> Len(r) = n - i /\ SubSeq(s, 1, i) \o r = s
+         [] mut.kind = "delch" -> Len(r) = n - 1 /\ SubSeq(r, 1, i - 1) \o SubSeq(s, i, i) \o SubSeq(r, i, n - 1) = s
+         [] mut.kind = "dupch" -> Len(r) = n + 1 /\ SubSeq(r, 1, i) \o SubSeq(r, i + 2, n + 1) = s
+                                              /\ SubSeq(r, i, i) = SubSeq(r, i + 1, i + 1)
 \* the meaning of a document is a flat sequence of the five statement kinds of an API description
 MeaningShape ==
   phase = "lay" =>
@@ -639,8 +686,8 @@ MeaningShape ==
                  succeeds; the formatted text parses to an equivalent meaning; formatting the
                  formatted text succeeds and returns it unchanged; (whatever the second run
                  returned) its result parses to an equivalent meaning as well.
-   invalid case: (mutated token sequence) parser and formatter end with "ok" or "err",
-                 never with a crash.                                                     *)
+   invalid case: (mutated token sequence, or text damaged at a character position) parser and
+                 formatter end with "ok" or "err", never with a crash.                                                    *)
 NoCrash(st) == st \in {"ok", "err", "empty"}   \* "empty": the text to parse/format was empty (call skipped)
 
 ParseOK(d, valid, st, m) ==
